@@ -171,6 +171,10 @@ class ProjectFiles:
             if matcher.match(base) is not None:
                 yield base
             return
+        if not base.endswith("/"):
+            # The prefix ends inside a path segment, like `dir/foo-` for
+            # `dir/foo-*.ftl`. Walk the directory holding that segment.
+            base = mozpath.dirname(base)
         for d, dirs, files in self._walk(base):
             for f in files:
                 p = mozpath.join(d, f)
